@@ -215,6 +215,7 @@ package websockets
 // handler itself, unwrapped and unmodified (C13, second sentence).
 //@ func Proxy props(C13,C07)
 //@   requires wrapped != nil && openWebsocketWrapper != nil
+//@   assigns nothing
 //@   ghost regs int = 0
 //@   ghost rootRegs int = 0
 //@   ghost cleaned string = ""
@@ -231,6 +232,7 @@ package websockets
 
 //@ func createShimChannel props(C12,C13,C07)
 //@   requires openWebsocketWrapper != nil
+//@   assigns nothing
 //@   ensures r0 != nil
 
 // ---- the two relay goroutines of a connection (C11, C07) ----
